@@ -227,14 +227,24 @@ def check_snapshot_fresh(mod, rep, rid):
     SLEEP = ('nsync_sem_wait_with_cancel_',)
     ENQ = ('nsync_dll_make_last_in_list_', 'nsync_dll_make_first_in_list_')
     n = 0
+    cg = util.callgraph(mod)
     for wname in ('nsync_cv_wait_with_deadline_generic', 'nsync_mu_wait_with_deadline'):
         wf = mod.func(wname)
         if wf is None or wf.decl:
             raise AnalysisBroken('%s: %s not found' % (rid, wname))
         for gname in sorted(util.bind_params(mod, wf, [])):
             g = mod.func(gname)
-            sleeps = [i for i in g.real_insts() if i.op == 'call' and i.callee in SLEEP]
-            enqs = [i for i in g.real_insts() if i.op == 'call' and i.callee in ENQ]
+            # the sleep / the enqueue, or a call of a static helper that contains it (but not both: then the helper is judged itself)
+            def via(callee, what, other):
+                if callee in what:
+                    return True
+                h = mod.func(callee) if callee else None
+                if h is None or h.decl or not h.internal or callee == gname:
+                    return False
+                r = util.reach(cg, [callee])
+                return bool(r & set(what)) and not (r & set(other))
+            sleeps = [i for i in g.real_insts() if i.op == 'call' and via(i.callee, SLEEP, ENQ)]
+            enqs = [i for i in g.real_insts() if i.op == 'call' and via(i.callee, ENQ, SLEEP)]
             if not sleeps or not enqs:
                 continue
             um = util.users_map(g)
@@ -249,12 +259,22 @@ def check_snapshot_fresh(mod, rep, rid):
                         if u.op in ('phi', 'zext', 'sext', 'trunc', 'bitcast'):
                             work.append(u.id)
                 return out
-            loads = [i for i in g.real_insts() if i.op == 'load' and isinstance(i.ops[0], str)
-                     and util.last_field(util.addr_class(mod, g, i.ops[0])) == 'waiter.remove_count']
+            def rc_loads(h):
+                return [i for i in h.real_insts() if i.op == 'load' and isinstance(i.ops[0], str)
+                        and util.last_field(util.addr_class(mod, h, i.ops[0])) == 'waiter.remove_count']
+            loads = rc_loads(g)
+            # ... or a call of a helper that returns such a load (a snapshot accessor)
+            for c in g.real_insts():
+                if c.op == 'call' and c.callee and c.callee not in SLEEP:
+                    h = mod.func(c.callee)
+                    if h is not None and not h.decl and h.internal:
+                        hl = set(x.id for x in rc_loads(h))
+                        if hl and any(r.op == 'ret' and r.ops and isinstance(r.ops[0], str) and r.ops[0] in hl for r in h.real_insts()):
+                            loads.append(c)
             snaps = []
             for l in loads:
                 us = users_closure(l)
-                if us and paths_avoiding(g, l, lambda i: i.op == 'call' and i.callee in SLEEP, lambda i: id(i) in us) is not None:
+                if us and paths_avoiding(g, l, lambda i: any(i is t for t in sleeps), lambda i: id(i) in us) is not None:
                     snaps.append(l)
             sn = set(id(x) for x in snaps)
             for T in sleeps:
